@@ -482,7 +482,7 @@ def _iter_wildcards(
     if isinstance(template, Wildcard):
         yield template
         return
-    if isinstance(template, type):
+    if isinstance(template, (type, str, bytes)):
         return
     if isinstance(template, Iterable):
         for item in template:
